@@ -211,6 +211,47 @@ def inst_public_extremum(which, chunks, split_every):
                     unit=f"reductions._common.{which} + reduction() + tree lowering + chunk_{which}/partial_reduce", cost=2 ** n)
 
 
+def inst_public_extremum_nd(which, chunks, axis, split_every=None):
+    """the public min/max along one axis of a 2-d array with concrete chunk sizes, zero-length chunks included (what a strided
+    slice or an empty selection leaves behind), symbolic data: advertised shape = computed shape = NumPy's, and every output
+    position holds an element of its slice that bounds the slice"""
+    shape = tuple(sum(c) for c in chunks)
+
+    def body(E):
+        import dask_array.io._from_array as FAm
+        from symx.graph import Runner
+
+        from . import catalog
+
+        w = catalog.W(E)
+        X = np.empty(shape, dtype=object)
+        for pos in itertools.product(*[range(n) for n in shape]):
+            X[pos] = E.real("x" + "_".join(map(str, pos)))
+        cs = tuple(tuple(c) for c in chunks)
+        node = w.space.make(FAm.FromArray, leaf("X", shape), cs, _symx_attrs=dict(_meta=np.empty((0, 0)), chunks=cs, _name="x"))
+        bnd = [np.cumsum((0,) + c) for c in cs]
+        node.__dict__["_symx_layer"] = {("x",) + g: X[tuple(slice(b[i], b[i + 1]) for b, i in zip(bnd, g))].copy()
+                                        for g in itertools.product(*[range(len(c)) for c in cs])}
+        coll = w.fn(catalog.NC, "new_collection")(node)
+        out = w.fn(catalog.RCM, which)(coll, axis=axis, split_every=split_every)
+        other = 1 - axis
+        E.ensure("advertised-shape-is-numpys", tuple(out.shape) == (shape[other],))
+        m = catalog.stages(E, w, out.expr, {"materialized"})["materialized"]
+        r = Runner(catalog._layers(m))
+        parts = [np.asarray(r.get((m._name, j)), dtype=object) for j in range(len(m.chunks[0]))]
+        E.ensure("blocks-have-the-advertised-shape", all(p.shape == (c,) for p, c in zip(parts, m.chunks[0])))
+        res = list(np.concatenate([p.ravel() for p in parts])) if parts else []
+        E.ensure("computed-length", len(res) == shape[other])
+        for j, v in enumerate(res[:shape[other]]):
+            line = [X[(k, j) if axis == 0 else (j, k)] for k in range(shape[axis])]
+            E.ensure(f"slice{j}-bounds", AND(*[(v <= u) if which == "min" else (v >= u) for u in line]))
+            E.ensure(f"slice{j}-member", OR(*[v == u for u in line]))
+
+    nm = "x".join("+".join(map(str, c)) for c in chunks)
+    return Instance(f"public_{which}_2d[chunks={nm},axis={axis},split_every={split_every}]", body, dict(chunks=chunks, axis=axis),
+                    unit=f"reductions._common.{which} + chunk_{which} + tree lowering on blocks with zero-length axes", cost=4)
+
+
 def inst_public_topk(chunks, k, split_every=None):
     """the public topk over a 1-d array with concrete chunk sizes and symbolic data, through the real reduction tree and
     chunk.topk / topk_aggregate on object-array blocks: the result has min(|k|, n) elements -- the advertised shape --, is
@@ -580,6 +621,10 @@ def instances(tier):
     out.append(inst_public_argtopk((2, 2), 2))
     out.append(inst_public_argtopk((2, 1), -2, split_every=2))
     out.append(inst_public_argtopk((2, 1), 3))  # exactly all there is
+    for which in ("min", "max"):
+        out.append(inst_public_extremum_nd(which, ((1, 0), (3,)), 0))   # an empty block along the reduced axis
+        out.append(inst_public_extremum_nd(which, ((1, 0), (2, 1)), 1))  # an empty block along the kept axis
+        out.append(inst_public_extremum_nd(which, ((2,), (1, 0, 1)), 1, split_every=2))
     for which in ("min", "max"):
         out.append(inst_public_extremum(which, (1, 2), 2))
         out.append(inst_public_extremum(which, (1, 1, 0, 0), 2))  # a whole group of the tree is empty
